@@ -387,11 +387,28 @@ def run_property(pid, tier='quick', seed=0, jobs=None, only=None, verbose=False,
             anchors['failed'].append({'cell': c.cid, 'args': ex, 'error': rep['error'],
                                       'sig': rep['info'].get('sig')})
             r = results.get((c.cid, 'cell'), {})
-            if r.get('state') == 'CONFIRMED':
-                # solver says "holds for all values", a concrete value disagrees: harness defect
+            if rep['ok'] is None:
                 summary['harness_errors'] += 1
-                say('HARNESS-ERROR cell=%s confirmed symbolically but its concrete anchor fails: %s %s' % (
-                    c.cid, rep['error'], rep['info']))
+                say('HARNESS-ERROR cell=%s anchor did not run: %s' % (c.cid, rep['error']))
+            elif c.cid not in {v['cell'] for v in viols} and c.cid not in {k['cell'] for k in knowns}:
+                # a concrete input through the public API (real parser, real oracle) fails although the
+                # symbolic run did not report this cell: the failing input is real, report it - and flag
+                # that it was found by the concrete anchor run, not by the solver (modelling gap, e.g. a
+                # behaviour that only exists behind the real parser)
+                sig = rep['info'].get('sig', 'unclassified')
+                entry = next((k for k in known if re.fullmatch(k['cell'], c.cid) and k['sig'] == sig), None)
+                if entry is not None:
+                    summary['known'] += 1
+                    knowns.append({'cell': c.cid, 'sig': sig, 'args': ex, 'what': entry['what'], 'found_by': 'anchor'})
+                    say('KNOWN-FINDING: property=%s cell=%s sig=%s %s' % (pid, c.cid, sig, entry['what']))
+                else:
+                    path = write_replay(pid, c, ex, rep, {'message': 'concrete anchor run (not a solver counterexample)'})
+                    summary['violations'] += 1
+                    viols.append({'cell': c.cid, 'args': ex, 'sig': sig, 'replay': path, 'found_by': 'anchor'})
+                    say('VIOLATION property=%s replay=%s' % (pid, path))
+                    say('  cell=%s sig=%s found-by=concrete-anchor (symbolic verdict: %s) args=%r' % (
+                        c.cid, sig, r.get('state'), ex))
+                    say('  observed=%r expected=%r' % (rep['info'].get('observed'), rep['info'].get('expected')))
         if len(samples) < 12:
             r = results.get((c.cid, 'cell'), {})
             samples.append({'cell': c.cid, 'params': c.params, 'symbolic': [list(x) for x in c.sym],
